@@ -158,7 +158,7 @@ Qed.
 Lemma parse_markup_font_prefix rest :
   parse_markup (60 :: 102 :: 111 :: 110 :: 116 :: 32 :: 99 :: 111 :: 108 :: 111 :: 114 :: 61 :: rest) =
   match attrs_go (SEq [114;111;108;111;99] false) [] 7%nat rest with
-  | Some (attrs, selfclosing, n) => MToks (TStart t_font attrs :: (if selfclosing then [TEnd] else [])) (1 + 4 + n)
+  | Some (attrs, selfclosing, n) => MToks (TStart t_font attrs :: (if selfclosing then [TEnd t_font] else [])) (1 + 4 + n)
   | None => MBad
   end.
 Proof. reflexivity. Qed.
@@ -206,7 +206,7 @@ Proof.
   rewrite tok_skip. reflexivity.
 Qed.
 
-Lemma tok_close_font pend X : tok O pend (close_font ++ X) = flush pend ++ TEnd :: tok O [] X.
+Lemma tok_close_font pend X : tok O pend (close_font ++ X) = flush pend ++ TEnd t_font :: tok O [] X.
 Proof. reflexivity. Qed.
 
 Lemma font_style_spec c : wf_colspec c = true ->
